@@ -10326,15 +10326,15 @@ where
 			ChannelReadyOrder::ChannelReadyFirst
 		};
 
-		// We will never broadcast the funding transaction when we're in MonitorUpdateInProgress
-		// (and we assume the user never directly broadcasts the funding transaction and waits for
-		// us to do it). Thus, we can only ever hit monitor_pending_channel_ready when we're
+		// We will never broadcast the funding transaction while the initial monitor persistence is
+		// in progress (and we assume the user never directly broadcasts the funding transaction and
+		// waits for us to do it). We hit monitor_pending_channel_ready when we're
 		// * an inbound channel that failed to persist the monitor on funding_created and we got
-		//   the funding transaction confirmed before the monitor was persisted, or
-		// * a 0-conf channel and intended to send the channel_ready before any broadcast at all.
+		//   the funding transaction confirmed before the monitor was persisted,
+		// * a 0-conf channel and intended to send the channel_ready before any broadcast at all, or
+		// * any channel whose funding transaction confirmed while a later monitor update (e.g. the
+		//   one persisting our shutdown script) was in progress.
 		let channel_ready = if self.context.monitor_pending_channel_ready {
-			assert!(!self.funding.is_outbound() || self.context.minimum_depth == Some(0),
-				"Funding transaction broadcast by the local client before it should have - LDK didn't do it!");
 			self.context.monitor_pending_channel_ready = false;
 			let channel_ready = self.get_channel_ready(logger);
 			requires_channel_manager_persistence |= channel_ready.is_some();
